@@ -694,6 +694,8 @@ class Machine:
             return self.globs[name]
         if name in ("operator", "random"):
             return std_modules()[name]
+        if name == "NotImplemented":
+            return NotImplemented
         if name in BUILTINS:
             return Builtin(name)
         if name in EXC_NAMES:
@@ -2072,8 +2074,13 @@ def _sf_late(m, node):
     return bool(m.heap.get((v.id, "late_bound"), False))
 
 
+def _sf_is_iterator(m, node):
+    v = m.eval(node.args[0])
+    return isinstance(v, Ref) and v.kind == "iter"
+
+
 SPEC_FUNCS = {
-    "late_bound": _sf_late, "count": _sf_count, "data_of_iters": _sf_iters_of,
+    "is_iterator": _sf_is_iterator, "late_bound": _sf_late, "count": _sf_count, "data_of_iters": _sf_iters_of,
     "RINT": _sf_rint, "TRUNC": _sf_trunc, "call_of": _sf_call_of, "call_arg": _sf_call_arg,
     "FDIV": _sf_fdiv, "is_stream": _sf_is_stream, "data_of": _sf_data_of, "gen_label": _sf_gen_label, "src_of": _sf_src_of,
     "same": _sf_same, "captured": _sf_captured, "is_closure": _sf_is_closure,
